@@ -1,3 +1,37 @@
-From DSG Require Import Base Dsg Sel SelP Problem.
-Theorem C03_placeholder : True. Proof. exact I. Qed.
-Print Assumptions C03_placeholder.
+(* C03 — the corrected vector describes the instance. *)
+From DSG Require Import Base Dsg Sel SelP DesVar DesVarP Problem ProblemP.
+From Coq Require Import QArith.
+
+(* for every active selection variable the option at that index is the option taken by (wired to the originating node of)
+   the choice, and it is part of the instance *)
+Theorem C03_describes_selection : forall g E x x' act inst dvv s i c opts xi',
+  decode_witness g E Full x x' act inst dvv = Some (Some s) ->
+  nth_error E i = Some (VSel c opts) -> nth_error act i = Some true -> nth_error x' i = Some xi' ->
+  exists o j, lookup s c = Some o /\ nth_error opts j = Some o /\ xi' == inject_Z (Z.of_nat j) /\
+              Reach g s c /\ is_sel g c = true /\ Reach g s o /\ (is_choice g o = false -> In o inst).
+Proof. exact active_sel_describes. Qed.
+Print Assumptions C03_describes_selection.
+
+(* design-variable nodes carry the reported values *)
+Theorem C03_describes_design_variables : forall g E k x x' act inst dvv s i n d xi xi' a,
+  decode_witness g E k x x' act inst dvv = Some (Some s) ->
+  nth_error E i = Some (VDv n d) -> nth_error x i = Some xi -> nth_error x' i = Some xi' -> nth_error act i = Some a ->
+  (In n inst <-> a = true) /\
+  (In n inst -> xi' == correct d xi /\ exists qv, lookupQ dvv n = Some qv /\ qv == xi') /\
+  (~ In n inst -> xi' == canon d /\ lookupQ dvv n = None).
+Proof. exact dv_present_iff_value. Qed.
+Print Assumptions C03_describes_design_variables.
+
+(* the corrected value of a present design-variable node is inside the declared range *)
+Theorem C03_in_range : forall g E k x x' act inst dvv s i n d xi',
+  decode_witness g E k x x' act inst dvv = Some (Some s) ->
+  nth_error E i = Some (VDv n d) -> nth_error x' i = Some xi' -> In n inst -> wf_dom d ->
+  exists xi, nth_error x i = Some xi /\ xi' == correct d xi /\ in_dom d (correct d xi) = true.
+Proof. exact dv_value_in_domain. Qed.
+Print Assumptions C03_in_range.
+
+(* the architecture a vector denotes depends only on the set of (choice, option) pairs *)
+Theorem C03_same_pairs_same_instance : forall g s s',
+  NoDup (map fst s) -> NoDup (map fst s') -> same s s' -> forall n, Reach g s n <-> Reach g s' n.
+Proof. exact Reach_order_independent. Qed.
+Print Assumptions C03_same_pairs_same_instance.
